@@ -43,19 +43,55 @@ func lastLines(s string, n int) string {
 	return strings.Join(l, " | ")
 }
 
+type indVariant struct {
+	name     string
+	edits    [][2]string
+	init     string
+	inv      string
+	length   string
+	wantHold bool
+}
+
+// runInductive runs the obligations, probes and design changes of one Apalache-typed module.
+func runInductive(r *Reporter, module string, vs []indVariant) {
+	src, err := os.ReadFile("/verif/spec/" + module + ".tla")
+	must(err)
+	bad := 0
+	for i, v := range vs {
+		text := string(src)
+		for _, e := range v.edits {
+			if !strings.Contains(text, e[0]) {
+				inconclusive("%s: edit target not found in spec/%s.tla: %q", propID, module, e[0])
+			}
+			text = strings.Replace(text, e[0], e[1], 1)
+		}
+		dir := newWorkDir(fmt.Sprintf("%s%d", module, i))
+		must(os.WriteFile(filepath.Join(dir, module+".tla"), []byte(text), 0o644))
+		held, _, err := apalache(dir, module+".tla", "--init="+v.init, "--inv="+v.inv, "--length="+v.length)
+		os.RemoveAll(dir)
+		if err != nil {
+			inconclusive("%s %s: %v", propID, v.name, err)
+		}
+		res := "refuted"
+		if held {
+			res = "holds"
+		}
+		mark := "as expected"
+		if held != v.wantHold {
+			mark = "UNEXPECTED"
+			bad++
+		}
+		fmt.Printf("  %-70s %s (%s)\n", v.name+":", res, mark)
+		r.Eval(v.name, true)
+	}
+	if bad > 0 {
+		inconclusive("%s: %d obligations did not come out as expected", propID, bad)
+	}
+}
+
 func init() {
 	register("busind", func(r *Reporter) {
-		src, err := os.ReadFile("/verif/spec/BusInd.tla")
-		must(err)
-		type variant struct {
-			name     string
-			edits    [][2]string
-			init     string
-			inv      string
-			length   string
-			wantHold bool
-		}
-		base := []variant{
+		runInductive(r, "BusInd", []indVariant{
 			{"Init => IndInv", nil, "Init", "IndInv", "0", true},
 			{"IndInv /\\ Next => IndInv'", nil, "IndInit", "IndInv", "1", true},
 			{"probe: IndInit admits a full bus", nil, "IndInit", "ProbeNotFull", "0", false},
@@ -67,38 +103,20 @@ func init() {
 			{"design change: Connect puts moved items before the visible ones", [][2]string{
 				{"queue' = queue \\o FunAsSeq([i \\in 1 .. BufferLen |-> [t |-> buffer[i].t, at |-> buffer[i].at]], n, BufferLen)",
 					"queue' = FunAsSeq([i \\in 1 .. BufferLen |-> [t |-> buffer[i].t, at |-> buffer[i].at]], n, BufferLen) \\o queue"}}, "IndInit", "IndInv", "1", false},
-		}
-		bad := 0
-		for i, v := range base {
-			text := string(src)
-			for _, e := range v.edits {
-				if !strings.Contains(text, e[0]) {
-					inconclusive("busind: edit target not found in spec/BusInd.tla: %q", e[0])
-				}
-				text = strings.Replace(text, e[0], e[1], 1)
-			}
-			dir := newWorkDir(fmt.Sprintf("BusInd%d", i))
-			must(os.WriteFile(filepath.Join(dir, "BusInd.tla"), []byte(text), 0o644))
-			held, out, err := apalache(dir, "BusInd.tla", "--init="+v.init, "--inv="+v.inv, "--length="+v.length)
-			os.RemoveAll(dir)
-			if err != nil {
-				inconclusive("busind %s: %v", v.name, err)
-			}
-			_ = out
-			res := "refuted"
-			if held {
-				res = "holds"
-			}
-			mark := "as expected"
-			if held != v.wantHold {
-				mark = "UNEXPECTED"
-				bad++
-			}
-			fmt.Printf("  %-70s %s (%s)\n", v.name+":", res, mark)
-			r.Eval(v.name, true)
-		}
-		if bad > 0 {
-			inconclusive("busind: %d obligations did not come out as expected", bad)
-		}
+		})
+	})
+	// lruind: the key-value LRU design of spec/KVLru.tla (C13, second half): NoDup /\ WithinCap inductive,
+	// and every step touches/displaces as an LRU must (spec/KVLruInd.tla).
+	register("lruind", func(r *Reporter) {
+		put := "THEN Tail(order) \\o <<k>> ELSE Refresh(k)"
+		runInductive(r, "KVLruInd", []indVariant{
+			{"Init => IndInv /\\ Step", nil, "Init", "IndStep", "0", true},
+			{"IndInv /\\ Next => (IndInv /\\ Step)'", nil, "IndInit", "IndStep", "1", true},
+			{"probe: IndInit admits a full cache", nil, "IndInit", "ProbeNotFull", "0", false},
+			{"probe: a step displaces a key", nil, "IndInit", "ProbeNoDisplace", "1", false},
+			{"design change: Put displaces the most recently used key", [][2]string{{put, "THEN SubSeq(order, 1, Cap - 1) \\o <<k>> ELSE Refresh(k)"}}, "IndInit", "IndStep", "1", false},
+			{"design change: Get does not refresh the key", [][2]string{{"order' = IF Has(k) THEN Refresh(k) ELSE order", "order' = order"}}, "IndInit", "IndStep", "1", false},
+			{"design change: Put of a present key appends without removing", [][2]string{{put, "THEN Tail(order) \\o <<k>> ELSE order \\o <<k>>"}}, "IndInit", "IndStep", "1", false},
+		})
 	})
 }
